@@ -292,7 +292,7 @@ func (vc *FuncVC) applyContract(s *State, cl *callee, ord int, site ssa.Instruct
 		}
 		vc.uncontracted[cl.name] = true
 		res := mkResults()
-		vc.siteClauses(s, ss, siteKey, cl, res, pos)
+		vc.siteClauses(s, nil, ss, siteKey, cl, res, pos)
 		return res
 	}
 	if c.External || c.Kind == "schema" {
@@ -406,7 +406,7 @@ func (vc *FuncVC) applyContract(s *State, cl *callee, ord int, site ssa.Instruct
 		}
 		vc.assume(s.pc, vc.tr(e2, en.E))
 	}
-	vc.siteClauses(s, ss, siteKey, cl, res, pos)
+	vc.siteClauses(s, old, ss, siteKey, cl, res, pos)
 	return res
 }
 
@@ -442,11 +442,14 @@ func (vc *FuncVC) siteAssumes(s *State, cl *callee, ord int, pos token.Pos) {
 }
 
 // siteClauses applies the caller's ghost updates and assumptions for a call site.
-func (vc *FuncVC) siteClauses(s *State, ss *SiteSpec, siteKey string, cl *callee, res []Term, pos token.Pos) {
+func (vc *FuncVC) siteClauses(s *State, pre *State, ss *SiteSpec, siteKey string, cl *callee, res []Term, pos token.Pos) {
 	if ss == nil {
 		return
 	}
 	ce := vc.callerEnv(s, pos)
+	if pre != nil {
+		ce.old = pre // old() in clauses attached to a call site means "just before the call"
+	}
 	vc.addCallVars(ce, cl)
 	for i, r := range res {
 		ce.vars[fmt.Sprintf("$res%d", i)] = r
